@@ -3216,6 +3216,12 @@ nested_parse_template_instantiation(CPPTemplateScope *scope) {
   for (pi = formal_params._parameters.begin();
        pi != formal_params._parameters.end() && _parsing_template_params;) {
     CPPToken token = peek_next_token();
+    if (token._token == 0) {
+      // The input ended inside the template argument list.  A parameter pack
+      // would otherwise keep asking for more arguments forever.
+      _parsing_template_params = false;
+      break;
+    }
     YYLTYPE loc = token._lloc;
 
     CPPDeclaration *decl = (*pi);
